@@ -421,6 +421,8 @@ DEFAULT_CFG = {
     "bits": True, "float": True, "leb": True, "wchar": True, "char": True, "enum": True, "ptr": True, "void": True,
     "nested": True, "union": True, "anon": True, "arrays": True, "expr": True, "null": True, "eof": True, "multidim": True,
     "consts": True, "wide": True,
+    # cumulative thresholds of the field-kind choice: scalar, bit-field run, array, pointer, void (rest: nested)
+    "w": (0.30, 0.42, 0.72, 0.78, 0.80),
 }
 
 
@@ -573,7 +575,8 @@ class Gen:
             fname = f"f{j}" if not anon else f"a{self.n}_{j}"
             last = j == nf - 1
             r = rnd.random()
-            if r < 0.30:
+            w = cfg["w"]
+            if r < w[0]:
                 t = self.scalar()
                 fields.append(field(fname, t))
                 cur[0] = None
@@ -581,7 +584,7 @@ class Gen:
                     refs.append(fname)
                 if t["k"] not in ("int", "enum"):
                     allint = False
-            elif r < 0.42 and cfg["bits"] and not union:
+            elif r < w[1] and cfg["bits"] and not union:
                 base = rnd.choice(["uint8", "uint16", "uint32", "uint64", "int8", "int16", "int32", "enum", "char", "uint24"])
                 if base == "enum":
                     ty = self.enum(rnd.choice(["uint8", "uint16"]))
@@ -602,7 +605,7 @@ class Gen:
                     fields.append(field(fname, ty, b))
                     j += 1
                 continue
-            elif r < 0.72 and cfg["arrays"]:
+            elif r < w[2] and cfg["arrays"]:
                 elem = self.scalar()
                 if depth > 0 and cfg["nested"] and rnd.random() < 0.25:
                     elem = self.struct(depth - 1)
@@ -612,7 +615,7 @@ class Gen:
                 fields.append(field(fname, arr))
                 cur[0] = None
                 allint = False
-            elif r < 0.78 and cfg["ptr"]:
+            elif r < w[3] and cfg["ptr"]:
                 tgt = rnd.choice([t_int("uint16"), t_int("uint8"), t_char()])
                 t = t_ptr(tgt)
                 if rnd.random() < 0.2:
@@ -620,7 +623,7 @@ class Gen:
                 fields.append(field(fname, t))
                 cur[0] = None
                 allint = False
-            elif r < 0.80 and cfg["void"]:
+            elif r < w[4] and cfg["void"]:
                 fields.append(field(fname, t_void()))
                 cur[0] = None
                 allint = False
@@ -725,6 +728,10 @@ def universe(max_fields=2, kinds=None, modes=None, with_len_field=True):
 
 
 # ------------------------------------------------------------------------------------------ value generation
+def Storage_size(t):
+    return 1 if t["k"] == "char" else (t["base"]["size"] if t["k"] == "enum" else t["size"])
+
+
 def has_kind(t, kinds):
     k = t["k"]
     if k in kinds:
